@@ -31,6 +31,9 @@ def applies(patch):
 def one(d):
     meta = json.load(open(os.path.join(d, "meta.json")))
     pid = meta["property"]
+    m0 = re.match(r"(C\d\d)\b", (meta.get("detected_by") or [""])[0])
+    if m0:
+        pid = m0.group(1)          # stored under the property it was written for, detected by another property's check
     patch = patch_of(d)
     t = time.time()
     env = dict(os.environ, TAIL="400")
